@@ -66,7 +66,8 @@ def run(tier, seed):
             jobs.append({"kind": "plain", "scenario": b})
             pairs.append({"a": a, "b": len(jobs) - 1, "rule": "seasonOffset", "label": {"crop": sc["crop"]["name"], "irr": (sc.get("irr") or {}).get("method", 0), "k": k,
                                                                                        "extras": [x for x in ("field", "gw") if sc.get(x)]}, "scenario": sc})
-    rc2 = equivbase.equiv_check(PROP, tier, seed, jobs, pairs, mcs=[("MC_Clock1.tla", "MC_ClockQ.cfg" if tier == "quick" else "MC_Clock1.cfg", 1800)],
+    rc2 = equivbase.equiv_check(PROP, tier, seed, jobs, pairs, mcs=[("MC_Clock1.tla", "MC_ClockQ.cfg" if tier == "quick" else "MC_Clock1.cfg", 1800), ("AquaSeasons.tla", "MC_Seasons.cfg", 600)]
+                                + ([("AquaSeasons.tla", "MC_Seasons_k3.cfg", 900)] if tier == "thorough" else []),
                                 rule_text="C08: season k of a multi-season run vs a fresh single-season run started on that season's planting date "
                                           "(alignment by date, Equiv rule seasonOffset); crops converted with SwitchGDD are excluded by design", merge=True)
     return 1 if (rc1 or rc2) else 0
